@@ -703,13 +703,19 @@ impl<'a> Gen<'a> {
                 st.kinds[l - 13] = U32;
             }
             8 => {
-                // rcomb_base gadget: 16 fresh elements with small u32 pointers at positions 13, 14
-                let a14 = self.addr() % (1 << 31);
+                // rcomb_base gadget: 16 fresh elements with u32 pointers at positions 13, 14. The
+                // word read through position 14 (randomness) must have the form [a0, a1, 0, 0]: the
+                // operation's bus request assumes a zero upper half (DESIGN F26), so the gadget
+                // writes such a word to a dedicated address first.
+                let a14 = (1u64 << 29) + self.rng.below(1 << 20);
                 let mut a13 = self.addr() % (1 << 31);
                 if a13 == a14 {
                     // two reads of one address in one cycle are not representable in the memory chiplet
                     a13 += 1;
                 }
+                out.push(op(format!("push.{}.{}.0.0", self.rng.felt(), self.rng.felt()), 6));
+                out.push(op(format!("mem_storew.{}", a14), 3));
+                out.push(op("dropw", 4));
                 out.push(op(format!("push.{}.{}.{}", self.rng.felt(), a14, a13), 6));
                 for _ in 0..3 {
                     st.push(Any);
@@ -1377,4 +1383,20 @@ pub fn generate(rng: &mut Rng, cfg: GenCfg) -> GenProgram {
         cfg.max_nest = cfg.max_nest.saturating_sub(1);
         cfg.chunk_max = (cfg.chunk_max / 2).max(3);
     }
+}
+
+/// A depth-neutral, advice-free body (usable as the body of any exec'd / called library procedure),
+/// rendered as text with the given indentation.
+pub fn neutral_body_text(rng: &mut Rng, cfg: GenCfg, locals: u32, indent: usize) -> String {
+    let mut cfg = cfg;
+    cfg.n_procs = 0;
+    cfg.n_kernel = 0;
+    let mut g = Gen::new(rng, cfg);
+    g.no_adv = true;
+    g.cur_locals = locals;
+    let mut st = St { kinds: vec![], avail: 0, exact: false };
+    let body = g.neutral_body(&mut st, 0);
+    let mut s = String::new();
+    render_items(&body, &[], indent, &mut s);
+    s
 }
